@@ -1379,10 +1379,68 @@ func (s *maState) successStates(b *ssa.BasicBlock, ret *ssa.Return) []bitset {
 		}
 		return out
 	}
+	// `if err == nil { … assign … }; return err`: the edges that reach the return with err known to be non-nil cannot be
+	// successes; the state of a possible success is the meet over the other edges
+	if len(b.Preds) > 1 && len(b.Instrs) == 1 {
+		var st bitset
+		excluded := 0
+		for _, p := range b.Preds {
+			if edgeNonNil(p, b, ev) {
+				excluded++
+				continue
+			}
+			ps := s.out[p].copy()
+			for _, g := range s.edgeLeaves(p, b) {
+				ps[g] = true
+			}
+			if st == nil {
+				st = ps
+			} else {
+				st = st.and(ps)
+			}
+		}
+		if excluded > 0 && st != nil {
+			if x := s.classify(ev, b, st); x != nil {
+				return []bitset{x}
+			}
+			return nil
+		}
+	}
 	if x := s.classify(ev, b, state.copy()); x != nil {
 		return []bitset{x}
 	}
 	return nil
+}
+
+// edgeNonNil: control reaches b from p only when ev != nil (p ends in a test of ev against nil and b is its non-nil
+// side).
+func edgeNonNil(p, b *ssa.BasicBlock, ev ssa.Value) bool {
+	iff, ok := p.Instrs[len(p.Instrs)-1].(*ssa.If)
+	if !ok || len(p.Succs) != 2 || p.Succs[0] == p.Succs[1] {
+		return false
+	}
+	cond := iff.Cond
+	neg := false
+	for {
+		u, isNot := cond.(*ssa.UnOp)
+		if !isNot || u.Op != token.NOT {
+			break
+		}
+		cond, neg = u.X, !neg
+	}
+	c, ok := cond.(*ssa.BinOp)
+	if !ok || (c.Op != token.EQL && c.Op != token.NEQ) {
+		return false
+	}
+	if !((c.X == ev && isNilConst(c.Y)) || (c.Y == ev && isNilConst(c.X))) {
+		return false
+	}
+	// truth of "ev != nil" on the edge to Succs[0]
+	nonNilOnTrue := (c.Op == token.NEQ) != neg
+	if p.Succs[0] == b {
+		return nonNilOnTrue
+	}
+	return !nonNilOnTrue
 }
 
 // classify decides whether error value ev can be nil at the end of block b; it returns the state
